@@ -143,6 +143,8 @@ int main(int argc, char *argv[])
 
         // If UDP is used the packets starts with an encapsulation number
         if (use_udp) {
+            if (res < AVTP_UDP_HEADER_LEN)
+                continue;
             udp_pdu = pdu;
             udp_seq_num = Avtp_Udp_GetEncapsulationSeqNo((Avtp_Udp_t *)udp_pdu);
             cf_pdu = pdu + AVTP_UDP_HEADER_LEN;
@@ -152,6 +154,8 @@ int main(int argc, char *argv[])
         }
 
         // Check if the packet is a control format packet (i.e. NTSCF or TSCF)
+        if (res < proc_bytes + AVTP_COMMON_HEADER_LEN)
+            continue;
         subtype = Avtp_CommonHeader_GetSubtype((Avtp_CommonHeader_t*)cf_pdu);
         if (subtype == AVTP_SUBTYPE_TSCF){
             proc_bytes += AVTP_TSCF_HEADER_LEN;
@@ -160,6 +164,11 @@ int main(int argc, char *argv[])
             proc_bytes += AVTP_NTSCF_HEADER_LEN;
             msg_length = Avtp_Ntscf_GetNtscfDataLength((Avtp_Ntscf_t*)cf_pdu);
         }
+
+        // The datagram must at least hold the fixed VSS header and the
+        // shortest possible path (a 16 bit length prefix)
+        if (res < proc_bytes + AVTP_VSS_FIXED_HEADER_LEN + 2)
+            continue;
 
         // Check if the control packet payload is a ACF GPC.
         acf_pdu = &pdu[proc_bytes];
@@ -172,23 +181,37 @@ int main(int argc, char *argv[])
         // Parse the VSS Packet and print contents on the STDOUT
         Vss_AddrMode_t addrMode;
         VssPath_t path;
+        char path_string[MAX_PDU_SIZE];
+        uint16_t path_length;
         addrMode = Avtp_Vss_GetAddrMode((Avtp_Vss_t*)acf_pdu);
+        if (addrMode != VSS_INTEROP_MODE && addrMode != VSS_STATIC_ID_MODE)
+            continue;
+
+        // The path (and its length prefix) must lie inside the datagram
+        path_length = Avtp_Vss_CalcVssPathLength((Avtp_Vss_t*)acf_pdu);
+        if (path_length > res - proc_bytes - AVTP_VSS_FIXED_HEADER_LEN)
+            continue;
+        // (a 16 bit path length close to 65535 wraps around once the prefix is added)
+        if (addrMode == VSS_INTEROP_MODE && path_length < 2)
+            continue;
+
+        // The library copies the path into storage provided by the caller
+        path.vss_interop_path.path = path_string;
         Avtp_Vss_GetVssPath((Avtp_Vss_t*)acf_pdu, &path);
 
         if (addrMode == VSS_INTEROP_MODE) {
-            char path_string[path.vss_interop_path.path_length+1];
-            memset(path_string, '\0', path.vss_interop_path.path_length+1);
-            memcpy(path_string, path.vss_interop_path.path, path.vss_interop_path.path_length);
-            printf("VSS Path: %s, ", path_string);
+            printf("VSS Path: %.*s, ", (int)path.vss_interop_path.path_length, path_string);
         } else if (addrMode == VSS_STATIC_ID_MODE) {
             printf("VSS Path: %d, ", path.vss_static_id_path);
         }
 
+        // Only scalar float values are printed. Strings and arrays would
+        // need caller provided storage, so they are not decoded at all.
         VssData_t data;
         Vss_Datatype_t dt = Avtp_Vss_GetDatatype((Avtp_Vss_t*)acf_pdu);
-        Avtp_Vss_GetVssData((Avtp_Vss_t*)acf_pdu, &data);
-
-        if (dt == VSS_FLOAT) {
+        if (dt == VSS_FLOAT &&
+            sizeof(float) <= res - proc_bytes - AVTP_VSS_FIXED_HEADER_LEN - path_length) {
+            Avtp_Vss_GetVssData((Avtp_Vss_t*)acf_pdu, &data);
             printf("VSS Value: %f\n", data.data_float);
         }
 
